@@ -181,6 +181,26 @@ func c07Check(x *core.Ctx, c *core.Case) {
 	}
 	c07EntryPoints(x, sources, schema, err)
 	x.Nontrivial()
+	if err == nil && !sources[0].BuiltIn && core.HashString(src)%4 == 1 {
+		// a source handed over twice (the same object, or an equal copy) declares everything in it twice: unique names are
+		// a rule whatever the files are called (after seeded change C07-wave10-C: the root package dropped sources equal to
+		// one it had already seen)
+		if first, perr := parser.ParseSchema(&ast.Source{Name: "first.graphql", Input: sources[0].Input}); perr == nil && len(first.Definitions)+len(first.Directives)+len(first.Schema) > 0 {
+			again := sources[0]
+			if core.HashString(src)%8 == 1 {
+				cp := *sources[0]
+				again = &cp
+			}
+			twice := append(append([]*ast.Source{}, sources...), again)
+			x.Count("loads_with_a_source_given_twice")
+			if s2, err2 := gqlparser.LoadSchema(twice...); err2 == nil && s2 != nil {
+				x.Violate("loaded-but(source-given-twice)", "LoadSchema took a source list in which "+sources[0].Name+" occurs twice", "an error: every definition of that source is declared twice")
+			}
+			if s3, err3 := validator.LoadSchema(append([]*ast.Source{validator.Prelude}, twice...)...); err3 == nil && s3 != nil {
+				x.Violate("loaded-but(source-given-twice:validator.LoadSchema)", "validator.LoadSchema took a source list in which "+sources[0].Name+" occurs twice", "an error")
+			}
+		}
+	}
 	switch {
 	case expect == "load":
 		if len(viol) > 0 || len(extra) > 0 {
